@@ -268,7 +268,7 @@ def long_arbitrary_cases(draw, tier):
 
 
 ARB_KINDS = ("plain",) * 8 + ("scaled",) * 3 + ("nilpotent",) * 2 + ("rank_one",) * 2 + ("complex",) * 2 + (
-    "hermitian", "neg_identity")
+    "hermitian", "neg_identity", "hollow", "hollow_hermitian")
 ARB_PATTERNS = ("generic",) * 6 + ("int",) * 3 + ("pure_imag",) * 2 + ("sparse",) * 2 + ("axis", "unit", "zero")
 
 
@@ -289,6 +289,11 @@ def arbitrary_matrix(draw, nmax):
         x = draw(gen.qmat(n, 1, patterns=("generic", "int")))
         y = draw(gen.qmat(1, n, patterns=("generic", "int")))
         A = ref.qmm(x, y)
+    elif kind in ("hollow", "hollow_hermitian"):
+        if kind == "hollow_hermitian":
+            A = gen.make_hermitian(A)
+        for i in range(n):
+            A[i, i] = 0.0                 # zero diagonal, non-zero matrix (adjacency-type)
     elif kind == "neg_identity":
         A = -ref.qeye(n) * draw(st.sampled_from([1.0, 0.5, 3.0]))
     elif kind == "complex":
